@@ -178,22 +178,31 @@ impl<'m, const N: usize> Perform for Checker<'m, N> {
             });
         let m = self.model;
         self.ok &= params.len() == m.osc_fields();
-        let mut i = 0;
-        while i < params.len() && i < vt::MAX_OSC_FIELDS {
-            let (b, e) = m.osc_field(i);
-            if params[i].len() != e - b {
-                self.ok = false;
-            } else {
-                let mut k = 0;
-                while k < params[i].len() {
-                    if b + k >= N || params[i][k] != m.osc[b + k] {
-                        self.ok = false;
+        // constant trip counts (16 fields x N payload bytes), guards inside
+        crate::blocks!(16, i, {
+            if i < params.len() {
+                let (b, e) = m.osc_field(i);
+                if params[i].len() != e - b {
+                    self.ok = false;
+                } else if N <= 8 {
+                    let mut k = 0;
+                    while k < N {
+                        if k < params[i].len() && (b + k >= N || params[i][k] != m.osc[b + k]) {
+                            self.ok = false;
+                        }
+                        k += 1;
                     }
-                    k += 1;
+                } else {
+                    let mut k = 0;
+                    while k < params[i].len() {
+                        if b + k >= N || params[i][k] != m.osc[b + k] {
+                            self.ok = false;
+                        }
+                        k += 1;
+                    }
                 }
             }
-            i += 1;
-        }
+        });
     }
     fn csi_dispatch(&mut self, params: &Params, intermediates: &[u8], ignore: bool, action: u8) {
         let e = self.next();
@@ -504,31 +513,34 @@ step_case!(step_osc_15, St::OscString, 0, 15, 0, 18);
 step_case!(step_osc_16, St::OscString, 0, 16, 0, 19);
 step_case!(step_osc_16_extra, St::OscString, 0, 16, 2, 19);
 
-/// UTF-8 state: a lead byte plus up to two further bytes from Ground, then one more
-/// arbitrary byte -- all bytes symbolic, escape processing must stay suspended.
-#[kani::proof]
-#[kani::unwind(10)]
-fn step_utf8() {
-    let mut m = any_model(St::Ground, 1, 1);
-    let mut p = concretize(&m, 0);
-    let lead: u8 = kani::any();
-    kani::assume(lead >= 0xC2 && lead <= 0xF4);
-    assert!(lockstep(&mut p, &mut m, lead));
-    let k: u8 = kani::any();
-    kani::assume(k <= 2);
-    let mut i = 0;
-    while i < 2 {
-        if i < k && m.st == St::Utf8 {
+/// UTF-8 state: a lead byte plus `$k` further (arbitrary) bytes from Ground, then one more
+/// arbitrary byte -- escape processing must stay suspended until the character ends.
+macro_rules! utf8_case {
+    ($name:ident, $k:expr) => {
+        #[kani::proof]
+        #[kani::unwind(10)]
+        fn $name() {
+            let mut m = any_model(St::Ground, 1, 1);
+            let mut p = concretize(&m, 0);
+            let lead: u8 = kani::any();
+            kani::assume(lead >= 0xC2 && lead <= 0xF4);
+            assert!(lockstep(&mut p, &mut m, lead));
+            let mut i = 0;
+            while i < $k {
+                let b: u8 = kani::any();
+                assert!(lockstep(&mut p, &mut m, b), "callbacks agree inside a character");
+                i += 1;
+            }
+            let was_utf8 = m.st == St::Utf8;
             let b: u8 = kani::any();
-            assert!(lockstep(&mut p, &mut m, b), "callbacks agree inside a character");
+            assert!(lockstep(&mut p, &mut m, b), "callbacks agree with the model");
+            assert!(abstracts_to(&p, &m), "post-state refines the model's post-state");
+            kani::cover!(was_utf8 && b == 0x1B && m.st == St::Ground);
+            kani::cover!(was_utf8 || $k > 0);
+            kani::cover!(m.st == St::Escape || $k == 0);
         }
-        i += 1;
-    }
-    let was_utf8 = m.st == St::Utf8;
-    let b: u8 = kani::any();
-    assert!(lockstep(&mut p, &mut m, b), "callbacks agree with the model");
-    assert!(abstracts_to(&p, &m), "post-state refines the model's post-state");
-    kani::cover!(was_utf8 && b == 0x1B && m.st == St::Ground);
-    kani::cover!(was_utf8 && m.st == St::Utf8);
-    kani::cover!(!was_utf8 && m.st == St::Escape);
+    };
 }
+utf8_case!(step_utf8_0, 0);
+utf8_case!(step_utf8_1, 1);
+utf8_case!(step_utf8_2, 2);
